@@ -161,3 +161,19 @@ Proof. intros Hne Hd Hs. pose proof (race_inv_run schedule) as [_ [_ [W [S F]]]]
 Theorem race_unlocked_refuted :
   let r := fold_left rstep_unlocked [1; 2; 1; 2] race_init in r_pc r 1 = Done true /\ r_pc r 2 = Done true.
 Proof. vm_compute. split; reflexivity. Qed.
+
+(* the Stronghold-backed store refines the in-memory contract: whatever it completes, the contract completes with the same result and state;
+   whatever it refuses leaves the store as it was *)
+Definition is_err (r : kres) : bool := match r with RErr _ => true | _ => false end.
+Theorem kstep_sh_refines s o s' r : kstep_sh s o = (s', r) -> (is_err r = false -> kstep s o = (s', r)) /\ (is_err r = true -> s' = s).
+Proof.
+  assert (G : forall o0 s1 r1, kstep s o0 = (s1, r1) -> (is_err r1 = false -> kstep s o0 = (s1, r1)) /\ (is_err r1 = true -> s1 = s)).
+  { intros o0 s1 r1 K. split; [intros _; exact K|]. intros E. destruct r1 as [? ?|?|?| |?|e]; try discriminate.
+    pose proof (failed_op_no_effect s o0 e) as F. rewrite K in F. cbn [fst snd] in F. symmetry. symmetry in F. rewrite F; reflexivity. }
+  unfold kstep_sh. destruct o as [k e sec|j|id p|id|id]; try (apply G).
+  destruct (kstep s (OInsert j)) as [s1 r1] eqn:K.
+  assert (G1 : forall s2 r2, (s1, r1) = (s2, r2) -> (is_err r2 = false -> (s1, r1) = (s2, r2)) /\ (is_err r2 = true -> s2 = s)).
+  { intros s2 r2 H. injection H as <- <-. split; [intros _; reflexivity|intros E; apply (G _ _ _ K); exact E]. }
+  destruct r1 as [id p|id|sec| |b|e]; try (apply G1).
+  destruct (j_d_ok j); [apply G1|]. intros H. injection H as <- <-. split; [discriminate|reflexivity].
+Qed.
